@@ -233,10 +233,15 @@ class WellTyped:
             if not isinstance(v, dict):
                 return bad(f"expected dict, got {type(v).__name__}")
             out = []
+            kt = self.m.resolve_alias(t["key"])
+            intkey = kt["kind"] == "base" and kt["name"] == "integer"
             for kk, x in v.items():
-                if not isinstance(kk, str):
+                if intkey:
+                    if not isinstance(kk, int) or isinstance(kk, bool):
+                        out.append(("ill-typed", locus, ctx, f"map key {short(kk)} of an integer-keyed map"))
+                elif not isinstance(kk, str):
                     out.append(("ill-typed", locus, ctx, f"map key {short(kk)}"))
-                js = j.get(kk, _ABSENT) if isinstance(j, dict) else _ABSENT
+                js = j.get(str(kk) if intkey else kk, _ABSENT) if isinstance(j, dict) else _ABSENT
                 out.extend(self.check(x, t["value"], js, f"{locus}|{{}}", ctx))
             return out
         if k == "tuple":
